@@ -2,60 +2,299 @@
   Line-protocol driver around the model: one operation per input line, one canonical answer line.
   Unverified glue (parsing/printing); everything it calls is the model the theorems are about.
 -/
-import SomeipModel.Model.Bytes
-import SomeipModel.Model.Header
+import SomeipModel.Model.All
 import SomeipModel.Spec.Wire
 open Someip
 
-def natTok (s : String) : Option Nat := s.toNat?
+/-- token-stream parser -/
+abbrev P (α : Type) := List String → Option (α × List String)
+
+def pNat : P Nat
+  | t :: r => t.toNat?.map (·, r)
+  | [] => none
+def pBool : P Bool
+  | "1" :: r => some (true, r)
+  | "0" :: r => some (false, r)
+  | _ => none
+def pHex : P Bytes
+  | t :: r => (ofHex t).map (·, r)
+  | [] => none
+def pOptHex : P (Option Bytes)
+  | "~" :: r => some (none, r)
+  | t :: r => (ofHex t).map (fun b => (some b, r))
+  | [] => none
+def pDest : P Dest
+  | "~" :: r => some (none, r)
+  | t :: r => t.toNat?.map (fun n => (some n, r))
+  | [] => none
+
+def pMany {α} (p : P α) : Nat → P (List α)
+  | 0, ts => some ([], ts)
+  | n + 1, ts => do
+    let (x, ts) ← p ts
+    let (xs, ts) ← pMany p n ts
+    pure (x :: xs, ts)
+
+def pCounted {α} (p : P α) : P (List α) := fun ts => do
+  let (n, ts) ← pNat ts
+  pMany p n ts
+
+def boolStr (b : Bool) : String := if b then "1" else "0"
+def joinSp (l : List String) : String := " ".intercalate l
 
 def fmtHeader (h : Header) : String :=
   s!"{h.sid} {h.mid} {h.cid} {h.sess} {h.iv} {h.mt.toNat} {h.pv} {h.rc.toNat} {toHex h.payload}"
 
-def readHeader : List String → Option (Header × List String)
-  | sid :: mid :: cid :: sess :: iv :: mt :: pv :: rc :: pl :: rest => do
-    let sid ← natTok sid; let mid ← natTok mid; let cid ← natTok cid; let sess ← natTok sess
-    let iv ← natTok iv; let mt ← (natTok mt).bind MsgType.ofNat?; let pv ← natTok pv
-    let rc ← (natTok rc).bind RetCode.ofNat?; let pl ← ofHex pl
-    pure ({ sid, mid, cid, sess, iv, mt, pv, rc, payload := pl }, rest)
+def pHeader : P Header := fun ts => do
+  let (sid, ts) ← pNat ts; let (mid, ts) ← pNat ts; let (cid, ts) ← pNat ts; let (sess, ts) ← pNat ts
+  let (iv, ts) ← pNat ts; let (mt, ts) ← pNat ts; let (pv, ts) ← pNat ts; let (rc, ts) ← pNat ts
+  let (pl, ts) ← pHex ts
+  let mt ← MsgType.ofNat? mt
+  let rc ← RetCode.ofNat? rc
+  pure ({ sid, mid, cid, sess, iv, mt, pv, rc, payload := pl }, ts)
+
+def kindNum : IPKind → Nat | .endpoint => 0 | .multicast => 1 | .sdEndpoint => 2
+def pKind : P IPKind
+  | "0" :: r => some (.endpoint, r) | "1" :: r => some (.multicast, r) | "2" :: r => some (.sdEndpoint, r)
   | _ => none
 
-def boolStr (b : Bool) : String := if b then "1" else "0"
+def fmtOptText : Option Text → String
+  | none => "~" | some t => toHex t
 
-def handle (toks : List String) : String :=
+def fmtOption : SDOption → String
+  | .ipv4 k a l4 p => s!"ip4 {kindNum k} {toHex a} {l4} {p}"
+  | .ipv6 k a l4 p => s!"ip6 {kindNum k} {toHex a} {l4} {p}"
+  | .loadBal p w => s!"lb {p} {w}"
+  | .config items => s!"cfg {items.length}" ++ String.join (items.map fun (k, v) => s!" {toHex k} {fmtOptText v}")
+  | .unknown t p => s!"unk {t} {toHex p}"
+
+def pCfgItem : P (Text × Option Text) := fun ts => do
+  let (k, ts) ← pHex ts
+  let (v, ts) ← pOptHex ts
+  pure ((k, v), ts)
+
+def pOption : P SDOption
+  | "ip4" :: ts => do
+    let (k, ts) ← pKind ts; let (a, ts) ← pHex ts; let (l4, ts) ← pNat ts; let (p, ts) ← pNat ts
+    pure (.ipv4 k a l4 p, ts)
+  | "ip6" :: ts => do
+    let (k, ts) ← pKind ts; let (a, ts) ← pHex ts; let (l4, ts) ← pNat ts; let (p, ts) ← pNat ts
+    pure (.ipv6 k a l4 p, ts)
+  | "lb" :: ts => do
+    let (p, ts) ← pNat ts; let (w, ts) ← pNat ts
+    pure (.loadBal p w, ts)
+  | "cfg" :: ts => do
+    let (items, ts) ← pCounted pCfgItem ts
+    pure (.config items, ts)
+  | "unk" :: ts => do
+    let (t, ts) ← pNat ts; let (p, ts) ← pHex ts
+    pure (.unknown t p, ts)
+  | _ => none
+
+def fmtOptions (l : List SDOption) : String :=
+  s!"{l.length}" ++ String.join (l.map fun o => " " ++ fmtOption o)
+
+def fmtEntry (e : SDEntry) : String :=
+  let head := s!"e {e.ty.toNat} {e.sid} {e.iid} {e.maj} {e.ttl} {e.val}"
+  match e.idx with
+  | none => s!"{head} R {fmtOptions e.opts1} {fmtOptions e.opts2}"
+  | some i => s!"{head} I {i.oi1} {i.oi2} {i.no1} {i.no2}"
+
+def pEntry : P SDEntry
+  | "e" :: ts => do
+    let (ty, ts) ← pNat ts; let ty ← EntryType.ofNat? ty
+    let (sid, ts) ← pNat ts; let (iid, ts) ← pNat ts; let (maj, ts) ← pNat ts
+    let (ttl, ts) ← pNat ts; let (val, ts) ← pNat ts
+    match ts with
+    | "R" :: ts => do
+      let (o1, ts) ← pCounted pOption ts
+      let (o2, ts) ← pCounted pOption ts
+      pure ({ ty, sid, iid, maj, ttl, val, opts1 := o1, opts2 := o2, idx := none }, ts)
+    | "I" :: ts => do
+      let (oi1, ts) ← pNat ts; let (oi2, ts) ← pNat ts; let (no1, ts) ← pNat ts; let (no2, ts) ← pNat ts
+      pure ({ ty, sid, iid, maj, ttl, val, idx := some ⟨oi1, oi2, no1, no2⟩ }, ts)
+    | _ => none
+  | _ => none
+
+def fmtSD (m : SDHeader) : String :=
+  s!"sd {boolStr m.flagReboot} {boolStr m.flagUnicast} {m.flagsUnknown} {m.entries.length}" ++
+  String.join (m.entries.map fun e => " " ++ fmtEntry e) ++ " " ++ fmtOptions m.options
+
+def pSD : P SDHeader
+  | "sd" :: ts => do
+    let (rb, ts) ← pBool ts; let (uc, ts) ← pBool ts; let (fu, ts) ← pNat ts
+    let (es, ts) ← pCounted pEntry ts
+    let (os, ts) ← pCounted pOption ts
+    pure ({ entries := es, options := os, flagReboot := rb, flagUnicast := uc, flagsUnknown := fu }, ts)
+  | _ => none
+
+def fmtService (s : Service) : String :=
+  s!"svc {s.sid} {s.iid} {s.maj} {s.min} {fmtOptions s.opts1} {fmtOptions s.opts2} {s.eventgroups.length}" ++
+  String.join (s.eventgroups.map fun g => s!" {g}")
+
+def pService : P Service
+  | "svc" :: ts => do
+    let (sid, ts) ← pNat ts; let (iid, ts) ← pNat ts; let (maj, ts) ← pNat ts; let (min, ts) ← pNat ts
+    let (o1, ts) ← pCounted pOption ts
+    let (o2, ts) ← pCounted pOption ts
+    let (egs, ts) ← pCounted pNat ts
+    pure ({ sid, iid, maj, min, opts1 := o1, opts2 := o2, eventgroups := egs }, ts)
+  | _ => none
+
+def fmtEventgroup (g : Eventgroup) : String :=
+  s!"eg {g.sid} {g.iid} {g.maj} {g.egid} {toHex g.sockname.addr} {g.sockname.port} {g.proto}"
+
+def pEventgroup : P Eventgroup
+  | "eg" :: ts => do
+    let (sid, ts) ← pNat ts; let (iid, ts) ← pNat ts; let (maj, ts) ← pNat ts; let (egid, ts) ← pNat ts
+    let (a, ts) ← pHex ts; let (port, ts) ← pNat ts; let (proto, ts) ← pNat ts
+    pure ({ sid, iid, maj, egid, sockname := ⟨a, port⟩, proto }, ts)
+  | _ => none
+
+def exStr {α} (f : α → String) : Except Err α → String
+  | .ok a => "ok " ++ f a
+  | .error e => "err " ++ e.name
+
+def fmtBoolE : Except Err Bool → String := exStr boolStr
+
+def pHandler : P (Nat × HandlerResult) := fun ts => do
+  let (mid, ts) ← pNat ts
+  match ts with
+  | "ret" :: ts => do let (b, ts) ← pHex ts; pure ((mid, .bytes b), ts)
+  | "none" :: ts => pure ((mid, .nothing), ts)
+  | "malformed" :: ts => pure ((mid, .malformed), ts)
+  | _ => none
+
+def pRecv : P (Addr × Bool × Bool × Nat) := fun ts => do
+  let (a, ts) ← pNat ts; let (mc, ts) ← pBool ts; let (fl, ts) ← pBool ts; let (sid, ts) ← pNat ts
+  pure ((a, mc, fl, sid), ts)
+
+def endStr : Option StreamEnd → String
+  | none => "none" | some .eofClean => "eofClean" | some .incomplete => "incomplete" | some .parseError => "parseError"
+
+def handle (toks : List String) : Option String :=
   match toks with
-  | "hdr.build" :: r =>
-    match readHeader r with
-    | some (h, []) =>
-      match h.build with
-      | some b => s!"ok {toHex b}"
-      | none => "err struct.error"
-    | _ => "bad-op"
-  | "spec.layout" :: r =>
-    match readHeader r with
-    | some (h, []) => s!"fits={boolStr (decide (Spec.FitsNum h))} {toHex (Spec.layout h)}"
-    | _ => "bad-op"
-  | ["hdr.parse", hx] =>
-    match ofHex hx with
-    | some b =>
-      match Header.parse b with
-      | .ok (h, r) => s!"ok {fmtHeader h} {toHex r}"
-      | .error e => s!"err {e.name}"
-    | none => "bad-op"
-  | ["dgram", hx] =>
-    match ofHex hx with
-    | some b =>
-      let (hs, e) := datagram b
-      let es := match e with | none => "none" | some e => e.name
-      s!"n={hs.length} err={es}" ++ String.join (hs.map fun h => " | " ++ fmtHeader h)
-    | none => "bad-op"
-  | _ => "bad-op"
+  | "hdr.build" :: r => do
+    let (h, []) ← pHeader r | none
+    pure (match h.build with | some b => s!"ok {toHex b}" | none => "err struct.error")
+  | "spec.layout" :: r => do
+    let (h, []) ← pHeader r | none
+    pure s!"fits={boolStr (decide (Spec.FitsNum h))} {toHex (Spec.layout h)}"
+  | ["hdr.parse", hx] => do
+    let b ← ofHex hx
+    pure (exStr (fun (h, r) => s!"{fmtHeader h} {toHex r}") (Header.parse b))
+  | ["dgram", hx] => do
+    let b ← ofHex hx
+    let (hs, e) := datagram b
+    let es := match e with | none => "none" | some e => e.name
+    pure (s!"n={hs.length} err={es}" ++ String.join (hs.map fun h => " | " ++ fmtHeader h))
+  | "opt.build" :: r => do
+    let (o, []) ← pOption r | none
+    pure (exStr toHex o.build)
+  | ["opt.parse", hx] => do
+    let b ← ofHex hx
+    pure (exStr (fun (o, r) => s!"{fmtOption o} | {toHex r}") (SDOption.parse b))
+  | "entry.build" :: r => do
+    let (e, []) ← pEntry r | none
+    pure (exStr toHex e.build)
+  | ["entry.parse", n, hx] => do
+    let n ← n.toNat?
+    let b ← ofHex hx
+    pure (exStr (fun (e, r) => s!"{fmtEntry e} | {toHex r}") (SDEntry.parse n b))
+  | "sd.build" :: r => do
+    let (m, []) ← pSD r | none
+    pure (exStr toHex m.build)
+  | ["sd.parse", hx] => do
+    let b ← ofHex hx
+    pure (exStr (fun (m, r) => s!"{fmtSD m} | {toHex r}") (SDHeader.parse b))
+  | "sd.assign" :: r => do
+    let (m, []) ← pSD r | none
+    pure (fmtSD m.assignOptionIndexes)
+  | "sd.resolve" :: r => do
+    let (m, []) ← pSD r | none
+    pure (exStr fmtSD m.resolveOptions)
+  | "sd.encode" :: r => do
+    let (m, []) ← pSD r | none
+    pure (exStr toHex m.assignOptionIndexes.build)
+  | ["sd.decode", hx] => do
+    let b ← ofHex hx
+    pure (exStr (fun (m, r) => s!"{fmtSD m} | {toHex r}")
+      (do let (m, r) ← SDHeader.parse b; let m' ← m.resolveOptions; pure (m', r)))
+  | "find" :: r => do
+    let (hay, r) ← pCounted pNat r
+    let (nd, []) ← pCounted pNat r | none
+    pure (match bmhFind hay nd with | some i => s!"{i}" | none => "none")
+  | "cfg.matchOffer" :: r => do
+    let (s, r) ← pService r
+    let (e, []) ← pEntry r | none
+    pure (fmtBoolE (s.matchesOffer e))
+  | "cfg.matchFind" :: r => do
+    let (s, r) ← pService r
+    let (e, []) ← pEntry r | none
+    pure (fmtBoolE (s.matchesFind e))
+  | "cfg.matchSub" :: r => do
+    let (s, r) ← pService r
+    let (e, []) ← pEntry r | none
+    pure (fmtBoolE (s.matchesSubscribe e))
+  | "cfg.matchSvc" :: r => do
+    let (s, r) ← pService r
+    let (o, []) ← pService r | none
+    pure (boolStr (s.matchesService o))
+  | "cfg.find" :: r => do
+    let (s, r) ← pService r
+    let (ttl, []) ← pNat r | none
+    pure (fmtEntry (s.createFindEntry ttl))
+  | "cfg.offer" :: r => do
+    let (s, r) ← pService r
+    let (ttl, []) ← pNat r | none
+    pure (fmtEntry (s.createOfferEntry ttl))
+  | "cfg.fromOffer" :: r => do
+    let (e, []) ← pEntry r | none
+    pure (exStr fmtService (Service.fromOfferEntry e))
+  | "cfg.forService" :: r => do
+    let (g, r) ← pEventgroup r
+    let (s, []) ← pService r | none
+    pure (match g.forService s with | some g' => fmtEventgroup g' | none => "none")
+  | "cfg.subEntry" :: r => do
+    let (g, r) ← pEventgroup r
+    let (ttl, r) ← pNat r
+    let (c, []) ← pNat r | none
+    pure (fmtEntry (g.createSubscribeEntry ttl c))
+  | "cfg.asService" :: r => do
+    let (g, []) ← pEventgroup r | none
+    pure (fmtService g.asService)
+  | "sess.recv" :: r => do
+    let (ms, []) ← pCounted pRecv r | none
+    let res := ms.foldl (fun (acc : Incoming × List String) (a, mc, fl, sid) =>
+      let (d, inc) := checkReceived acc.1 a mc fl sid
+      (inc, boolStr d :: acc.2)) ([], [])
+    pure (joinSp res.2.reverse)
+  | "sess.send" :: r => do
+    let (ds, []) ← pCounted pDest r | none
+    let res := ds.foldl (fun (acc : Outgoing × List String) d =>
+      let (x, out) := assignOutgoing acc.1 d
+      (out, s!"{boolStr x.1}:{x.2}" :: acc.2)) ([], [])
+    pure (joinSp res.2.reverse)
+  | "svc.msg" :: r => do
+    let (sid, r) ← pNat r; let (maj, r) ← pNat r
+    let (ms, r) ← pCounted pHandler r
+    let (mc, r) ← pBool r
+    let (h, []) ← pHeader r | none
+    let cfg : SvcCfg := { serviceId := sid, versionMajor := maj, methods := ms }
+    let out := cfg.messageReceived h mc
+    pure (s!"n={out.length}" ++ String.join (out.map fun h =>
+      " | " ++ (match h.build with | some b => toHex b | none => "struct.error")))
+  | "stream" :: r => do
+    let (cs, []) ← pCounted pHex r | none
+    let (hs, e) := readStream cs
+    pure (s!"n={hs.length} end={endStr e}" ++ String.join (hs.map fun h => " | " ++ fmtHeader h))
+  | _ => none
 
 partial def loop (h : IO.FS.Stream) (out : IO.FS.Stream) : IO Unit := do
   let line ← h.getLine
   if line.isEmpty then return ()
   let toks := (line.trimAscii.toString.splitOn " ").filter (· ≠ "")
-  out.putStrLn (handle toks)
+  out.putStrLn ((handle toks).getD "bad-op")
   loop h out
 
 def main : IO Unit := do
